@@ -1,0 +1,49 @@
+//go:build verif
+// +build verif
+
+package linker
+
+// Exports for the /verif correspondence harness, kernel "assethashfn" (build tag "verif" only). Add-only.
+
+import (
+	"github.com/evanw/esbuild/internal/config"
+	"github.com/evanw/esbuild/internal/fs"
+	"github.com/evanw/esbuild/internal/graph"
+	"github.com/evanw/esbuild/internal/logger"
+)
+
+// VerifJoinWithPublicPath runs the real joinWithPublicPath.
+func VerifJoinWithPublicPath(publicPath string, relPath string) string {
+	return joinWithPublicPath(publicPath, relPath)
+}
+
+// VerifPathBetweenChunks runs the real pathBetweenChunks; ok is false when it logged an error.
+func VerifPathBetweenChunks(fsys fs.FS, publicPath string, fromRelDir string, toRelPath string) (result string, ok bool) {
+	log := logger.NewDeferLog(logger.DeferLogNoVerboseOrDebug, nil)
+	c := &linkerContext{options: &config.Options{PublicPath: publicPath}, fs: fsys, log: log}
+	result = c.pathBetweenChunks(fromRelDir, toRelPath)
+	return result, !log.HasErrors()
+}
+
+// VerifAssetImportPath runs the real substituteFinalPaths on one asset piece (followed by the data "suffix")
+// of a chunk whose finalRelPath is chunkFinalRelPath, with the modifyPath callback of generateChunksInParallel.
+func VerifAssetImportPath(fsys fs.FS, publicPath string, absOutputDir string, chunkFinalRelPath string, assetAbsPath string, suffix string) (result string, ok bool) {
+	log := logger.NewDeferLog(logger.DeferLogNoVerboseOrDebug, nil)
+	c := &linkerContext{
+		options: &config.Options{PublicPath: publicPath, AbsOutputDir: absOutputDir},
+		fs:      fsys,
+		log:     log,
+		graph:   graph.LinkerGraph{Files: make([]graph.LinkerFile, 1)},
+	}
+	c.graph.Files[0].InputFile.AdditionalFiles = []graph.OutputFile{{AbsPath: assetAbsPath}}
+	c.graph.Files[0].InputFile.UniqueKeyForAdditionalFile = verifUniqueKey("P", 'A', 0)
+	io := intermediateOutput{pieces: []outputPiece{
+		{kind: outputPieceAssetIndex, index: 0},
+		{data: []byte(suffix)},
+	}}
+	finalRelDir := c.fs.Dir(chunkFinalRelPath)
+	j, _ := c.substituteFinalPaths(io, func(finalRelPathForImport string) string {
+		return c.pathBetweenChunks(finalRelDir, finalRelPathForImport)
+	})
+	return string(j.Done()), !log.HasErrors()
+}
